@@ -1,12 +1,20 @@
-// C03 layer (b): text -> events. The REAL XmppSocket::processData (src/base/Stream.cpp) is fed a symbolic token stream cut
-// into four reads at arbitrary positions; the emitted signals must be exactly the events of the stream, in order.
+// C03 layer (b): text -> events, as ONE INDUCTIVE STEP of the REAL XmppSocket::processData (src/base/Stream.cpp).
+// T is a symbolic token stream (see m_text.c). Invariant I(j,k): everything before position j of T has been delivered
+// (events of the pieces ending <= j, exactly once, in order), m_dataBuffer == T[j..k), j is not inside a piece, and
+// m_streamOpenElement is the header text captured when the header was consumed. The step feeds an arbitrary next read T[k..k2)
+// and must re-establish I(j2,k2) for j2 = k2 - |m_dataBuffer| having emitted exactly the events of the pieces ending in
+// (j, j2]; and it must make progress (j2 == k2) whenever k2 is not inside a piece. By induction over the reads this is the
+// property for every partition of the stream into any number of reads (including one read, and one unit at a time).
+// What precedes position j matters only through the cached header, so the harness takes j = 0 and lets T be the part of the
+// stream from there on ("header received earlier" is one of the symbolic shapes of T).
 #include "base/Stream.cpp"
 #include "vp_harness.h"
 #include "vp_dom.h"
 extern "C" {
-void vp_c03_make_stream(QString *text, QString *cachedHeader, unsigned maxStanzas);
-void vp_c03_chunk(QString *out, const QString *text, unsigned from, unsigned to);
-unsigned vp_c03_events(); unsigned vp_c03_expected(); bool vp_c03_events_are_prefix();
+void vp_c03_make_stream(QString *text, unsigned maxStanzas, unsigned part);
+unsigned vp_c03_length(); bool vp_c03_boundary(unsigned pos);
+void vp_c03_cached_at(QString *out, unsigned j, bool x0); void vp_c03_slice(QString *out, unsigned from, unsigned to);
+bool vp_c03_events_are(unsigned j, unsigned j2); unsigned vp_c03_events(); unsigned vp_c03_header_end();
 }
 #ifndef C03_STANZAS
 #define C03_STANZAS 3
@@ -15,32 +23,51 @@ unsigned vp_c03_events(); unsigned vp_c03_expected(); bool vp_c03_events_are_pre
 class tst_QXmppStream {
 public:
     static void feed(XmppSocket *s, const QString &chunk) { s->processData(chunk); }
-    static void setCachedHeader(XmppSocket *s, const QString &h) { s->m_streamOpenElement = h; }
-    static bool bufferEmpty(XmppSocket *s) { return s->m_dataBuffer.isEmpty(); }
+    static QString &cached(XmppSocket *s) { return s->m_streamOpenElement; }
+    static QString &buffer(XmppSocket *s) { return s->m_dataBuffer; }
 };
 
-static void run(unsigned reads)
+// mode 0: any step; 1: steps that end between pieces (progress); 2: steps that end inside a piece
+// part 0: any; 1: T starts at the stream start (nothing cached); 2: the header was received earlier (T = stanzas/close only)
+static void step(int mode, unsigned part)
 {
     auto *s = new XmppSocket(nullptr);
-    QString text, cached;
-    vp_c03_make_stream(&text, &cached, C03_STANZAS);
-    tst_QXmppStream::setCachedHeader(s, cached);      // empty unless the header arrived before this part of the stream
-    unsigned n = text.size();
-    unsigned k[5]; k[0] = 0; k[4] = n;
-    k[1] = vp_u32(); k[2] = vp_u32(); k[3] = vp_u32();
-    vp_assume(k[1] <= k[2] && k[2] <= k[3] && k[3] <= n);
-    if (reads < 4) vp_assume(k[3] == n);
-    if (reads < 3) vp_assume(k[2] == n);
-    if (reads < 2) vp_assume(k[1] == n);
-    for (unsigned i = 0; i < reads; i++) {
-        QString chunk; vp_c03_chunk(&chunk, &text, k[i], k[i + 1]);
-        tst_QXmppStream::feed(s, chunk);
-        vp_assert(vp_c03_events_are_prefix(), "C03 after every read the events emitted so far are the first events of the stream, unaltered and in order");
+    QString T; vp_c03_make_stream(&T, C03_STANZAS, part);
+    unsigned n = vp_c03_length();
+    const unsigned j = 0;
+    unsigned k = vp_u32(), k2 = vp_u32();
+    vp_assume(k <= k2 && k2 <= n);
+    bool complete = vp_c03_boundary(k2);
+    if (mode == 1) vp_assume(complete);
+    if (mode == 2) vp_assume(!complete);
+    const bool x0 = false;
+    // pre-state I(j,k)
+    QString cachedPre; vp_c03_cached_at(&cachedPre, j, x0);
+    QString bufPre; vp_c03_slice(&bufPre, j, k);
+    tst_QXmppStream::cached(s) = cachedPre;
+    tst_QXmppStream::buffer(s) = bufPre;
+    // the read
+    QString chunk; vp_c03_slice(&chunk, k, k2);
+    tst_QXmppStream::feed(s, chunk);
+    // post-state
+    unsigned left = tst_QXmppStream::buffer(s).size();
+    vp_assert(left <= k2 - j, "C03 the buffer never holds more than what was received and not yet delivered");
+    vp_assume(left <= k2 - j);
+    unsigned j2 = k2 - left;
+    QString rest; vp_c03_slice(&rest, j2, k2);
+    vp_assert(tst_QXmppStream::buffer(s) == rest, "C03 the buffer is exactly the undelivered tail of the received text");
+    vp_assert(vp_c03_boundary(j2), "C03 delivery stops between pieces, never inside one");
+    vp_assert(vp_c03_events_are(j, j2), "C03 exactly the events of the consumed pieces are emitted, once each, in stream order, with their content");
+    if (complete) vp_assert(j2 == k2, "C03 everything is delivered as soon as the received text ends between pieces");
+    unsigned hend = vp_c03_header_end();
+    if (hend > j && hend <= j2) {
+        QString want; vp_c03_slice(&want, j, hend);
+        vp_assert(tst_QXmppStream::cached(s) == want, "C03 the stream header is cached when it is consumed");
+    } else {
+        vp_assert(tst_QXmppStream::cached(s) == cachedPre, "C03 the cached stream header is kept");
     }
-    vp_assert(vp_c03_events() == vp_c03_expected(), "C03 after the last read every event of the stream has been delivered exactly once");
-    vp_assert(tst_QXmppStream::bufferEmpty(s), "C03 nothing of a completely delivered stream is left in the buffer");
 }
-extern "C" void h_text_1() { run(1); }
-extern "C" void h_text_2() { run(2); }
-extern "C" void h_text_3() { run(3); }
-extern "C" void h_text_4() { run(4); }
+extern "C" void h_step_complete_start() { step(1, 1); }
+extern "C" void h_step_complete_mid() { step(1, 2); }
+extern "C" void h_step_partial_start() { step(2, 1); }
+extern "C" void h_step_partial_mid() { step(2, 2); }
